@@ -86,14 +86,42 @@ def run(tier, seed, replay=None):
             reqs.append('tb\t%s\t%s' % (path_text(*p), path_text(*q))); meta.append(('tb', p, q))
         for p in pool:
             reqs.append('tokens_path\t%s' % stripped_text(p)); meta.append(('strip', p, None))
+        # the identity where it is used: two blocks whose bounds denote the same key (same path,
+        # same arguments, different bindings and binding spellings), the second one under a more
+        # specific header so that its bound is re-expressed over the family header before the
+        # look-up, must form ONE family
+        situ = [p for p in pool if not any(('T' in a and not is_binding(a)) or '_ŠČ' in a for a in (p[2] or ()))]
+        for p in (situ if tier != 'quick' else rng.sample(situ, min(len(situ), 160))):
+            base = tuple(a for a in (p[2] or ()) if not is_binding(a))
+            binds = tuple(a for a in (p[2] or ()) if is_binding(a))
+            q1 = path_text(p[0], p[1], base + binds + ('G = GA',))
+            q2 = path_text(p[0], p[1], base + tuple(reversed(binds)) + ('G = GB',)) if rng.random() < 0.5 else path_text(p[0], p[1], base + ('G = GB',))
+            hdr = rng.choice(['Vec<U>', 'Option<U>', '(U, U)'])
+            place1 = rng.random() < 0.5
+            b1 = ('impl<T: %s> K for T {}' % q1) if place1 else ('impl<T> K for T where T: %s {}' % q1)
+            b2 = 'impl<U> K for %s where %s: %s {}' % (hdr, hdr, q2)
+            blocks = [b1, b2] if rng.random() < 0.5 else [b2, b1]
+            reqs.append('groups\tpub trait K {} ' + ' '.join(blocks)); meta.append(('situ', p, None))
         # the model's token printer against syn's ToTokens on random types
         for _ in range(1500 if tier == 'quick' else 20000):
             t = g.rand_type(rng, rng.randrange(1, 4), 3)
             reqs.append('tokens_ty\t%s' % g.show(t)); meta.append(('tok', None, None))
     resp = cm.run_hook(reqs, exe_hook)
-    stats = dict(unsupported=0, crash=0, eq_true=0, eq_false=0, tok_skipped=0, tok_checked=0, pairs=0)
+    stats = dict(unsupported=0, crash=0, eq_true=0, eq_false=0, tok_skipped=0, tok_checked=0, pairs=0, in_situ=0)
     mreq, midx = [], []
+    situ_viol = []
     for i, r in enumerate(resp):
+        if reqs[i].startswith('groups\t'):
+            stats['in_situ'] += 1
+            ok = False
+            if r.startswith('(Blocks'):
+                from . import sexp2coq as sx
+                gtree = sx.parse(r.split('\t')[1])
+                ok = len(gtree[2]) == 1 and len(gtree[2][0][2][1][2]) == 2
+            if not ok:
+                situ_viol.append(dict(kind='property', request=reqs[i], impl=r[:600],
+                                      oracle='two blocks whose bounds denote the same dispatch key (same bounded type after re-expression over the family header, same trait path and arguments, only the bindings differ) are not grouped into one family'))
+            continue
         if r.startswith('(Unsupported'):
             stats['unsupported'] += 1; continue
         if r.startswith('(Crash'):
@@ -105,9 +133,11 @@ def run(tier, seed, replay=None):
             mreq.append('tokens\t%s' % f[0]); midx.append(i)
     mresp = cm.run_model(mreq, exe_model)
     per = dict(zip(midx, mresp))
-    violations, nontrivial = [], set()
+    violations, nontrivial = list(situ_viol), set()
     eq_impl, hash_impl, toks_impl, strip_toks = {}, {}, {}, {}
     for i, r in enumerate(resp):
+        if reqs[i].startswith('groups\t'):
+            continue
         if r.startswith('(Crash'):
             violations.append(dict(kind='crash', request=reqs[i], impl=r, oracle='TraitBound identity must not panic on fragment inputs'))
             continue
